@@ -27,7 +27,7 @@ def plan_batches(steps, R, P, faulty):
         steps.append({'k': 'msg', 'op': op, 'knobs': {}, 'path': 'str', 'merge': False, 'extra': True})
         return len(_store_steps(steps)) - 1
 
-    usable = [i for i, s in enumerate(st) if s['op']['type'] != 'Raw' and not s.get('corrupt')]
+    usable = [i for i, s in enumerate(st) if s['op']['type'] != 'Raw' and not s.get('corrupt') and not s['op'].get('malformed')]
     n_batches = R.choice([1, 1, 2, 3])
     for _ in range(n_batches):
         sel = list(usable)
@@ -75,7 +75,7 @@ def plan_batches(steps, R, P, faulty):
                       'ctor': R.choice(['files', 'strings', 'strings-bytes', 's3']),
                       'allow_incomplete': R.random() < 0.5, 'strict': R.random() < 0.5,
                       'perms': perms, 'cross': R.random() < 0.5,
-                      'page_size': R.randint(1, 7), 'noise_keys': R.random() < 0.4})
+                      'page_size': R.randint(1, 7), 'noise_keys': R.random() < 0.4, 'slots': R.random() < 0.5})
 
 
 def plan_listing(steps, R, P, faulty):
@@ -114,12 +114,16 @@ def _accept_expected(ops_sel, allow_incomplete):
     return True, 'ok'
 
 
-def _build(run, ctor, ents, allow_incomplete, tag, page_size=None, noise=False):
+def _build(run, ctor, ents, allow_incomplete, tag, page_size=None, noise=False, slots=False):
     """-> (mc, exc)"""
     MC = run_mc()
     try:
         if ctor == 'files':
-            return MC.MosCollection.from_files([e['path'] for e in ents], allow_incomplete=allow_incomplete), None
+            paths = [e['path'] for e in ents]
+            if slots:
+                # a spool directory refilled under the same file names for every collection
+                paths = [run.fs.write('slot-%02d.mos.xml' % i, e['data']) for i, e in enumerate(ents)]
+            return MC.MosCollection.from_files(paths, allow_incomplete=allow_incomplete), None
         if ctor == 'strings':
             return MC.MosCollection.from_strings([e['text'] if e['text'] is not None else e['data'] for e in ents],
                                                  allow_incomplete=allow_incomplete), None
@@ -156,16 +160,19 @@ def _fold(ents_sorted, create_ent):
     ro = MT.RunningOrder.from_string(create_ent['text'] if create_ent['text'] is not None else create_ent['data'])
     states = [str(ro)]
     failing = []
+    _fold.elem_warnings = []          # per message: categories of the element-level warnings
     for e in ents_sorted:
         m = MT.MosFile.from_string(e['text'] if e['text'] is not None else e['data'])
-        try:
-            with warnings.catch_warnings():
-                warnings.simplefilter('ignore')
+        with warnings.catch_warnings(record=True) as w:
+            warnings.resetwarnings()
+            warnings.simplefilter('always')
+            try:
                 ro = ro + m
-        except MX.MosMergeError as ex:
-            failing.append((e['mid'], type(ex).__name__))
-        except Exception as ex:    # noqa
-            return states, failing, (e['mid'], type(ex).__name__)
+            except MX.MosMergeError as ex:
+                failing.append((e['mid'], type(ex).__name__))
+            except Exception as ex:    # noqa
+                return states, failing, (e['mid'], type(ex).__name__)
+        _fold.elem_warnings.append(sorted(x.category.__name__ for x in w if issubclass(x.category, MX.MosRoMgrWarning)))
         states.append(str(ro))
     return states, failing, None
 
@@ -181,6 +188,8 @@ def _merge(mc, strict):
         except Exception as e:   # noqa
             exc = e
     nsw = [x for x in w if issubclass(x.category, MX.MosMergeNonStrictWarning)]
+    _merge.elem_warnings = sorted(x.category.__name__ for x in w if issubclass(x.category, MX.MosRoMgrWarning)
+                                  and not issubclass(x.category, MX.MosMergeNonStrictWarning))
     return exc, len(nsw)
 
 
@@ -200,11 +209,15 @@ def do_batch(run, step):
     sig['why'] = why
     run.cov.add(('batch', ctor, why, allow, strict, min(len(sel), 6)))
 
-    mc, exc = _build(run, ctor, sel, allow, tag, step.get('page_size'), step.get('noise_keys'))
+    mc, exc = _build(run, ctor, sel, allow, tag, step.get('page_size'), step.get('noise_keys'), slots=step.get('slots'))
     # ---- C11: accepted exactly when it describes one running order ----------------------
     if want_ok:
         if mc is None:
             add('C11.accept', 'a valid collection (%d messages) was rejected with %s: %s' % (len(sel), type(exc).__name__, exc))
+            if not isinstance(exc, MX.InvalidMosCollection):
+                # the messages are fine (each parses from a string): this source cannot deliver them
+                add('C18.collection', 'constructor %s cannot build a collection the other sources can: %s' % (ctor, type(exc).__name__))
+                add('C09.fold', 'a collection over %s could not be built (%s) although adding the messages one by one works' % (ctor, type(exc).__name__))
             return
     else:
         if mc is not None:
@@ -259,6 +272,8 @@ def do_batch(run, step):
         run.probes['>=3-failing-in-one-merge'] += 1
     exc_m, n_nsw = _merge(mc, strict)
     final = str(mc)
+    merged_elem_warnings = list(_merge.elem_warnings)
+    fold_elem_warnings = list(_fold.elem_warnings)
     run.stats['batch.merged'] += 1
     run.cov.add(('merge', strict, min(len(failing), 4), bool(crash)))
     if crash and strict and failing and mids.index(failing[0][0]) < mids.index(crash[0]):
@@ -270,6 +285,18 @@ def do_batch(run, step):
         if not strict:
             add('C12.progress', 'non-strict collection merge stopped at message %r with %s' % (crash[0], type(exc_m).__name__))
         return
+    # ---- C06 in collection mode: the element-level warnings are those of adding one by one ---------
+    upto = mids.index(failing[0][0]) + 1 if (strict and failing) else len(mids)
+    want_w = sorted(c for ws in fold_elem_warnings[:upto] for c in ws)
+    if not crash and merged_elem_warnings != want_w:
+        add('C06.collection', 'collection merge emitted element warnings %r, adding one by one gives %r' % (merged_elem_warnings, want_w))
+    # ---- C07 in collection mode: everything after the roDelete is refused ------------------------------
+    n_completed = sum(1 for f in failing if f[1] == 'MosCompletedMergeError')
+    if not crash and n_completed:
+        if strict and failing[0][1] == 'MosCompletedMergeError' and type(exc_m).__name__ != 'MosCompletedMergeError':
+            add('C07.terminal', 'strict collection merge: the message after the roDelete gave %s instead of MosCompletedMergeError' % type(exc_m).__name__)
+        if not strict and exc_m is None and 0 < len(failing) - n_nsw <= n_completed:
+            add('C07.terminal', 'non-strict collection merge: %d message(s) after the roDelete, %d of %d refusals reported' % (n_completed, n_nsw, len(failing)))
     if strict and failing:
         k = mids.index(failing[0][0])
         if exc_m is None:
